@@ -202,13 +202,27 @@ type lockset map[string]byte // lock key -> 'R' | 'W'; nil lockset with top=true
 
 type lset struct {
 	top bool
-	m   lockset
+	m   lockset // locks certainly held (intersection at joins)
+	may lockset // locks possibly held (union at joins): used by the unlock-discipline facts only
+	def lockset // locks whose release by a deferred Unlock is certainly registered (intersection at joins)
 }
 
 func (s lset) clone() lset {
 	n := lset{top: s.top, m: lockset{}}
 	for k, v := range s.m {
 		n.m[k] = v
+	}
+	if len(s.may) > 0 {
+		n.may = lockset{}
+		for k, v := range s.may {
+			n.may[k] = v
+		}
+	}
+	if len(s.def) > 0 {
+		n.def = lockset{}
+		for k, v := range s.def {
+			n.def[k] = v
+		}
 	}
 	return n
 }
@@ -230,6 +244,25 @@ func meet(a, b lset) lset {
 			}
 		}
 	}
+	if len(a.may)+len(b.may) > 0 {
+		n.may = lockset{}
+		for k, v := range a.may {
+			n.may[k] = v
+		}
+		for k, v := range b.may {
+			if _, ok := n.may[k]; !ok || v == 'W' {
+				n.may[k] = v
+			}
+		}
+	}
+	for k, v := range a.def {
+		if _, ok := b.def[k]; ok {
+			if n.def == nil {
+				n.def = lockset{}
+			}
+			n.def[k] = v
+		}
+	}
 	return n
 }
 
@@ -239,6 +272,19 @@ func (s lset) equal(o lset) bool {
 	}
 	for k, v := range s.m {
 		if o.m[k] != v {
+			return false
+		}
+	}
+	if len(s.may) != len(o.may) || len(s.def) != len(o.def) {
+		return false
+	}
+	for k, v := range s.may {
+		if o.may[k] != v {
+			return false
+		}
+	}
+	for k := range s.def {
+		if _, ok := o.def[k]; !ok {
 			return false
 		}
 	}
@@ -301,18 +347,20 @@ type unit struct {
 }
 
 type analysis struct {
-	l       *loader
-	units   map[*types.Func]*unit
-	order   []*unit
-	acc     map[accKey]accVal
-	incoming map[*unit][]lset
-	intoP   map[*unit][]taintSet
-	edges   map[[2]string]int
-	changed bool
-	targets map[*types.Package]*lpkg
+	l            *loader
+	units        map[*types.Func]*unit
+	order        []*unit
+	acc          map[accKey]accVal
+	incoming     map[*unit][]lset
+	intoP        map[*unit][]taintSet
+	edges        map[[2]string]int
+	changed      bool
+	targets      map[*types.Package]*lpkg
 	ifaceMethods map[*types.Package]map[string]bool
-	mutMemo map[*types.Func]int
-	fresh   map[types.Object]bool
+	mutMemo      map[*types.Func]int
+	fresh        map[types.Object]bool
+	facts        map[*unit]*unitFacts // unlock.go
+	regions      map[string]regionRec // unlock.go
 }
 
 // ------------------------------------------------------------------------------------------
@@ -476,17 +524,18 @@ type frame struct {
 }
 
 type fa struct {
-	a        *analysis
-	u        *unit
-	p        *lpkg
-	name     string // function name used in the table (closures: outer$N)
-	frames   []*frame
-	loop     int
-	closures *int
-	label    string
-	lt       map[types.Object]taintSet // taint of locals and parameters in this context
-	inl      []*unit                   // inline stack (context-sensitive analysis of callees given tracked arguments)
-	ltChange bool
+	a         *analysis
+	u         *unit
+	p         *lpkg
+	name      string // function name used in the table (closures: outer$N)
+	frames    []*frame
+	loop      int
+	closures  *int
+	label     string
+	lt        map[types.Object]taintSet // taint of locals and parameters in this context
+	inl       []*unit                   // inline stack (context-sensitive analysis of callees given tracked arguments)
+	ltChange  bool
+	entryKeys lockset // locks held on entry (unlock.go: they belong to the caller's regions)
 }
 
 func (f *fa) line(pos token.Pos) (string, int) {
@@ -774,6 +823,7 @@ func (f *fa) stmt(s ast.Stmt, st state) state {
 				}
 			}
 		}
+		f.regionExit(s, &st)
 		st.dead = true
 	case *ast.BranchStmt:
 		switch s.Tok {
@@ -978,7 +1028,8 @@ func (f *fa) closure(fl *ast.FuncLit) {
 		idx = *f.closures
 	}
 	sub := &fa{a: f.a, u: f.u, p: f.p, name: fmt.Sprintf("%s$%d", f.u.name, idx), closures: f.closures, lt: f.lt, inl: f.inl}
-	sub.block(fl.Body.List, state{L: lset{m: lockset{}}})
+	end := sub.block(fl.Body.List, state{L: lset{m: lockset{}}})
+	sub.regionExit(fl.Body, &end)
 }
 
 func (f *fa) spawn(c *ast.CallExpr, st *state) {
@@ -1004,12 +1055,21 @@ func (f *fa) deferred(c *ast.CallExpr, st *state) {
 		if k := syncKind(f.p.info.TypeOf(sel.X)); k == "mutex" || k == "rwmutex" {
 			switch sel.Sel.Name {
 			case "Unlock", "RUnlock":
+				if key := f.lockKey(sel.X); key != "" {
+					if st.L.def == nil {
+						st.L.def = lockset{}
+					}
+					st.L.def[key] = 'W'
+				}
 				return // held to the end of the function
 			default:
 				f.unknown(c.Pos(), "deferred lock operation", c)
 				return
 			}
 		}
+	}
+	if fl, ok := unparen(c.Fun).(*ast.FuncLit); ok {
+		f.deferredLiteralUnlocks(fl, st)
 	}
 	// arguments are evaluated now, the call runs at function exit: analysed with the empty lockset
 	f.spawn(c, st)
@@ -1393,6 +1453,7 @@ done:
 func (f *fa) call(c *ast.CallExpr, st *state) {
 	fun := unparen(c.Fun)
 	info := f.p.info
+	f.regionCall(c, st)
 	// conversions
 	if tv, ok := info.Types[fun]; ok && tv.IsType() {
 		for _, a := range c.Args {
@@ -1514,6 +1575,10 @@ func (f *fa) lockOp(sel *ast.SelectorExpr, c *ast.CallExpr, st *state) {
 			}
 		}
 		st.L.m[key] = mode
+		if st.L.may == nil {
+			st.L.may = lockset{}
+		}
+		st.L.may[key] = mode
 	}
 	switch sel.Sel.Name {
 	case "Lock":
@@ -1525,6 +1590,7 @@ func (f *fa) lockOp(sel *ast.SelectorExpr, c *ast.CallExpr, st *state) {
 			f.unknown(c.Pos(), "unlock of a lock not known to be held", c)
 		}
 		delete(st.L.m, key)
+		delete(st.L.may, key)
 	default:
 		f.unknown(c.Pos(), "unsupported lock operation", c)
 	}
@@ -1695,6 +1761,7 @@ func (a *analysis) pass() {
 	a.acc = map[accKey]accVal{}
 	a.incoming = map[*unit][]lset{}
 	a.edges = map[[2]string]int{}
+	a.regions = map[string]regionRec{}
 	for _, u := range a.order {
 		u.sites = nil
 		u.acquires = false
@@ -1740,8 +1807,10 @@ func (a *analysis) pass() {
 			}
 		}
 		st := state{L: entry.clone()}
+		f.entryKeys = entry.m
 		// the callee-side name of receiver locks
-		f.block(u.decl.Body.List, st)
+		end := f.block(u.decl.Body.List, st)
+		f.regionExit(u.decl.Body, &end)
 	}
 }
 
@@ -1930,7 +1999,10 @@ func main() {
 	}
 	a.collectUnits()
 	a.findFresh()
+	a.computeFacts()
 	rounds := a.solve()
+	a.computeRecovered()
+	regs := a.regionRows()
 
 	rows := []row{}
 	for k, v := range a.acc {
@@ -1969,7 +2041,7 @@ func main() {
 	}
 	w := bufio.NewWriter(fo)
 	fmt.Fprintf(w, "(* generated by translator/lockset from %s -- do not edit *)\n", l.modPath)
-	fmt.Fprintf(w, "From SG Require Import Base.Prelude Model.Lockset Model.RuleSwitch.\nLocal Open Scope string_scope.\n\n")
+	fmt.Fprintf(w, "From SG Require Import Base.Prelude Model.Lockset Model.RuleSwitch Model.LocksetRegions.\nLocal Open Scope string_scope.\n\n")
 	fmt.Fprintf(w, "Definition accesses : list access := [\n")
 	unknowns := 0
 	for i, r := range rows {
@@ -2008,6 +2080,18 @@ func main() {
 		}
 		fmt.Fprintf(w, "  (%s, %s)%s\n", coqStr(k[0]), coqStr(k[1]), sep)
 	}
+	fmt.Fprintf(w, "].\n\nDefinition lock_regions : list lock_region := [\n")
+	for i, r := range regs {
+		sep := ";"
+		if i == len(regs)-1 {
+			sep = ""
+		}
+		m := "MR"
+		if r.mode == 'W' {
+			m = "MW"
+		}
+		fmt.Fprintf(w, "  mkLR %s %s %s %s %s %s %s %v %v %d%%Z%s\n", coqStr(r.fn), coqStr(r.lock), m, r.kind, r.class, coqStr(r.callee), coqStr(r.via), r.deferred, r.recovered, r.line, sep)
+	}
 	fmt.Fprintf(w, "].\n")
 	w.Flush()
 	fo.Close()
@@ -2023,7 +2107,10 @@ func main() {
 		for _, k := range ek {
 			fmt.Printf("ORDER   %s -> %s\n", k[0], k[1])
 		}
+		for _, r := range regs {
+			fmt.Printf("REGION  %-45s %-28s %c %-7s %-6s %-40s via=%-45s deferred=%-5v recovered=%-5v line %d\n", r.fn, r.lock, r.mode, r.kind, r.class, r.callee, r.via, r.deferred, r.recovered, r.line)
+		}
 	}
-	fmt.Printf("lockset: %d packages, %d functions, %d accesses (%d unknown), %d guarded-read calls, %d lock-order edges, %d rounds -> %s\n",
-		len(a.targets), len(a.order), len(rows), unknowns, len(gcs), len(ek), rounds, *out)
+	fmt.Printf("lockset: %d packages, %d functions, %d accesses (%d unknown), %d guarded-read calls, %d lock-order edges, %d lock-region facts, %d rounds -> %s\n",
+		len(a.targets), len(a.order), len(rows), unknowns, len(gcs), len(ek), len(regs), rounds, *out)
 }
